@@ -1,13 +1,148 @@
 /-
-  Driver.OpsC07 — protocol operations for property C07 (filled in by the C07 work package).
-  Contract: `handleC07 op` returns the parser for operation `op` or `none` if `op` is not one of
-  this property's operations.
+  Driver.OpsC07 — protocol operations for property C07.
+
+  geom   :=  image <U> o0 o1 o2 b00 … b22 s0 s1 s2  |  rect <nX> X… <nY> Y… <nZ> Z…  |  struct <np> x y z …
+  (all coordinates of one line are counted in units of 2^-U; U = fractional bits, chosen by the harness)
+  c07mesh  <ex> <ey> <ez> geom                         in-memory classes: ordered points / connectivity
+  c07read  <6 extent ints> geom <npf>{name arr} <ncf>{name arr}    reader: content of the field data
+  c07mio   <dim> <np> coords… <nb>{type ncells k idx…} <npd>{name arr} <ncd>{name arr×nb}   from_meshio
+  c07tomio fields                                      to_meshio (content of the produced meshio mesh)
+
+  content :=  P#C,  P = point items joined by `|`,  C = cell items joined by `|`
+  point item  x,y,z/name=v,v/…      cell item  TYPE/x,y,z;x,y,z;…/name=v,v/…
 -/
 import Driver.Proto
-namespace Fc.Drv
+import Driver.ProtoMesh
+import FcModel.Spec.C07
+namespace Fc.Drv.C07
+open Fc Fc.Drv Fc.C07
+
+def joinWith (sep : String) (l : List String) : String := sep.intercalate l
+
+def showInts (l : List Int) : String := joinWith "," (l.map toString)
+def showNats (l : List Nat) : String := joinWith "," (l.map toString)
+
+def showValues (vs : List (String × List Int)) : String :=
+  joinWith "" (vs.map fun (n, v) => s!"/{n}={showInts v}")
+
+def showPointItem (p : PointItem) : String := showInts p.coords ++ showValues p.values
+
+def showCellItem (c : CellItem) : String :=
+  c.ctype ++ "/" ++ joinWith ";" (c.corners.map showInts) ++ showValues c.values
+
+def showContent (ps : List PointItem) (cs : List CellItem) : String :=
+  joinWith "|" (ps.map showPointItem) ++ "#" ++ joinWith "|" (cs.map showCellItem)
+
+def pGeom : P GridGeom := do
+  let k ← tok
+  match k with
+  | "image" => do
+    let U ← pNat
+    let o ← pMany pInt 3
+    let b ← pMany pInt 9
+    let s ← pMany pInt 3
+    pure (.image U o (chunk 3 b 3) s)
+  | "rect" => do
+    let x ← pList pInt
+    let y ← pList pInt
+    let z ← pList pInt
+    pure (.rect [x, y, z])
+  | "struct" => do
+    let n ← pNat
+    let cs ← pMany pInt (n * 3)
+    pure (.struct (chunk 3 cs n))
+  | _ => failure
+
+/-- exactness side conditions of the image formula (vacuous for the other kinds) -/
+def geomExact (lo : List Int) (ext : List Nat) : GridGeom → Bool
+  | .image U o b s => smallDyadic U ext o b s && lo.all (fun l => l.natAbs ≤ 256) &&
+      (locationsIn (ext.map (· + 1))).all (fun it =>
+        imagePointExact U b s (it.map Int.ofNat) && imagePointExact U b s (List.zipWith (· + ·) lo (it.map Int.ofNat)))
+  | _ => true
+
+def opMesh : P String := do
+  let ext ← pMany pNat 3
+  let g ← pGeom
+  let hyp := C07.Spec.gridHyp ext g [] [] && geomExact [0, 0, 0] ext g
+  let model := match gridMesh ext g with
+    | none => "raise"
+    | some m =>
+      let ct := gridCellType g.kind ext
+      s!"{ct}@{joinWith ";" (m.points.map showInts)}@{joinWith ";" ((m.cellsOf ct).map showNats)}"
+  let spec :=
+    let ct := C07.Spec.latticeType g.kind (gridDim ext)
+    let np := prodNat (ext.map (· + 1))
+    let pts := (List.range np).map fun p => C07.Spec.geomAt ext g (unflatten (ext.map (· + 1)) p)
+    let rows := (List.range (prodNat (nonzeroExtents ext))).map (C07.Spec.latticeCell ext ct)
+    s!"{ct}@{joinWith ";" (pts.map showInts)}@{joinWith ";" (rows.map showNats)}"
+  pure s!"hyp={showBool hyp} model={model} spec={if hyp then spec else "-"}"
+
+def pNamedArrs : P (List (String × NdArr)) := pList (do let n ← tok; let a ← pArr; pure (n, a))
+
+def opRead : P String := do
+  let extent ← pMany pInt 6
+  let g ← pGeom
+  let pfs ← pNamedArrs
+  let cfs ← pNamedArrs
+  let pfs' := pfs.map fun (n, a) => PointField.mk n a
+  let model := match readGrid extent g pfs' cfs with
+    | none => "raise"
+    | some f => showContent f.pointContent (f.cellContent.map C07.Spec.normCell)
+  match cellsPerDirection extent with
+  | none => pure s!"hyp=0 model={model} spec=-"
+  | some ext =>
+    let lo := lowerEnds extent
+    let hyp := C07.Spec.gridHyp ext g pfs' cfs && geomExact lo ext g && shiftExact lo g
+    let spec := showContent (C07.Spec.filePointContent lo ext g pfs') (C07.Spec.fileCellContent lo ext g cfs)
+    pure s!"hyp={showBool hyp} model={model} spec={if hyp then spec else "-"}"
+
+def pMio : P MioMesh := do
+  let dim ← pNat
+  let np ← pNat
+  let cs ← pMany pInt (np * dim)
+  let nb ← pNat
+  let blocks ← pMany (do
+    let ct ← tok
+    let nc ← pNat
+    let k ← pNat
+    let idx ← pMany pNat (nc * k)
+    pure (ct, chunk k idx nc)) nb
+  let pd ← pNamedArrs
+  let cd ← pList (do let n ← tok; let arrs ← pMany pArr nb; pure (n, arrs))
+  pure ⟨dim, chunk dim cs np, blocks, pd, cd⟩
+
+def opMio : P String := do
+  let m ← pMio
+  let rep := m.repeatedType
+  let hyp := m.wf && !rep
+  let model := match fromMeshio m with
+    | none => "raise"
+    | some f => showContent f.pointContent f.cellContent
+  let spec := showContent (C07.Spec.mioPointContent m) (C07.Spec.mioCellContent m)
+  pure s!"hyp={showBool hyp} cls={showBool rep} model={model} spec={if m.wf then spec else "-"}"
+
+/-- two cell types of the mesh collapse to one meshio type -/
+def mioCollision (f : MeshFields) : Bool :=
+  let ts := f.mesh.cellTypes.map C07.Spec.normType
+  ts.zipIdx.any fun (t, i) => (ts.take i).contains t
+
+def opToMio : P String := do
+  let f ← pMeshFields
+  let hyp := f.wf && !mioCollision f && f.mesh.cellTypes.all (fun t => (toMioType (C07.Spec.normType t)).isSome)
+  let model := match toMeshio f with
+    | none => "raise"
+    | some m => showContent (C07.Spec.mioPointContent m) (C07.Spec.mioCellContent m)
+  let spec := showContent f.pointContent (f.cellContent.map C07.Spec.normCell)
+  pure s!"hyp={showBool hyp} model={model} spec={if hyp then spec else "-"}"
 
 def handleC07 (op : String) : Option (P String) :=
   match op with
+  | "c07mesh" => some opMesh
+  | "c07read" => some opRead
+  | "c07mio" => some opMio
+  | "c07tomio" => some opToMio
   | _ => none
 
-end Fc.Drv
+end Fc.Drv.C07
+
+def Fc.Drv.handleC07 := Fc.Drv.C07.handleC07
